@@ -53,6 +53,8 @@ def run(chk):
              "by a comparison against min_coord/max_coord")
     chk.rule("R5.c-boundary", "each exported function rejects exactly the out-of-range cliptype / fillrule / precision values before "
              "first use (rejection condition evaluated over the whole value domain) with a negative / null result")
+    chk.rule("OUTPUT.reset", "every Clipper64 / ClipperD Execute overload empties the result containers it is given on every path, so ClipType::NoClip (and a failed "
+             "execution) yields empty solutions whatever the containers held")
     chk.rule("R6.noclip", "ExecuteInternal returns on ClipType::NoClip before calling anything that can reach NewOutRec")
     chk.rule("SUCCESS.re-armed", "every Execute writes succeeded_ (= true, in Reset) before reading it")
     chk.rule("BOUNDS.minmax", "every GetBounds overload (whose result feeds the range check of ScalePaths) updates min and max with every vertex, "
@@ -75,6 +77,12 @@ def run(chk):
             chk.extra.setdefault("error_swallowing_functions", {})[cfg] = e.swallowers
             e.rule_r3()
         chk.extra.setdefault("DoError_throws", {})[cfg] = e.doerror_throws
+        # an operation that does nothing (NoClip) or fails hands back *empty* results: every Execute overload empties the containers it was given
+        from ..engines import e10_pipeline as _e10r
+        _outs = db.find("Clipper64::Execute") + db.find("ClipperD::Execute")
+        if _e10r.rule_outputs_reset(db, chk, cfg, _outs) < 8:
+            from ..extract import AnalysisBroken as _AB
+            raise _AB("OUTPUT.reset: fewer than 8 output parameters on the Execute overloads (%s)" % cfg)
         _success_flag(db, chk, cfg)
     n = len(cfgs)
     chk.floor("R1.validate-before-use", 22 * n)
